@@ -24,6 +24,8 @@ REAL = ["msdm.core.semimdp.option (Option.run_on, PlanToSubgoalOption, augment)"
 STUB = ["table MDP behind msdm's model interface", "random.Random streams (SimRandom)", "empirical-distribution recomputation; reference solver for the sub-task optimum"]
 ASSUMPTIONS = ["a run whose first terminal state comes after exactly max_steps-1 or max_steps steps may raise or return (the statement does not choose)",
                "sub-task planning compared with the reference optimum only for discounted bases (always well defined)"]
+from sim.models import SEAM_RANGES  # noqa: E402
+ASSUMPTIONS = ASSUMPTIONS + [SEAM_RANGES]
 
 COMPONENTS = ('initial_state_dist', 'actions', 'next_state_dist', 'reward', 'is_absorbing', 'state_list', 'action_list')
 
